@@ -221,6 +221,13 @@ class C14(Check):
             'rebin_reject also asks for almost integral ratios at those sizes (98 -> 3, 99 -> 2, 3 -> 148).  Lengths 1 and 2, '
             'a few long arrays (200-1000) and, for smooth without truncation, widths beyond the array (every point stays '
             'untouched) are standing members.  '
+            'Option combinations are standing members: a running-median width together with axis (0, 1, -1, None) and/or '
+            'even (the width wins: running median), axis with and without even (odd lanes and even lanes with even=True '
+            'judged), smooth width as int / numpy int / float with and without edge_truncate, sample with every set of '
+            'expand/keep/shrink axes.  long_arrays: sizes at the edge of fixed-width integers - rebin of axes 23171..70000 '
+            'by 2-4 (index product across 2**31, 1-D and in 2-D, both directions, sample on/off; data from a stored seed), '
+            'smooth / median / running median on 2**15+-1 and 2**16+-1 samples with widths 2**8+-1, uniq on 2**16+1 elements, '
+            'all against numpy-vectorised references.  '
             'stale_sequence: 2-4 calls inside one case sharing sizes (rebin: the same (n0, n) pair on any axis/rank with '
             'sample and interpolating calls in both orders; smooth/median/running median: same n and width with flags, dtype '
             'and data changed; uniq with and without index), each call judged by the same oracle.  Non-trivial: smooth with made-odd width >= 3 that changes a '
@@ -257,6 +264,16 @@ class C14(Check):
                          'smooth_finite_windows_next_to_nonfinite_values', 'smooth_width_0',
                          'median_inputs_with_infinities', 'run_inputs_with_infinities', 'rebin_sample_nonfinite_inputs',
                          'rebin_sample_bool_inputs', 'flag_given_as_int_or_numpy_bool',
+                         'median_width_with_axis', 'median_width_with_even', 'median_width_with_axis_and_even',
+                         'median_width_with_axis_None', 'median_axis_alone', 'median_axis_with_even',
+                         'median_axis_lanes_judged', 'smooth_width_given_as_float', 'smooth_width_given_as_numpy_int',
+                         'smooth_width_given_as_float_with_edge_truncate', 'smooth_width_given_as_numpy_int_with_edge_truncate',
+                         'rebin_sample_with_axes_E', 'rebin_sample_with_axes_K', 'rebin_sample_with_axes_S',
+                         'rebin_sample_with_axes_EK', 'rebin_sample_with_axes_ES', 'rebin_sample_with_axes_KS',
+                         'rebin_sample_with_axes_EKS',
+                         'long_rebin_cases', 'long_smooth_cases', 'long_run1d_cases', 'long_median_cases', 'long_uniq_cases',
+                         'rebin_long_axis_index_product_ge_2**31_sample', 'rebin_long_axis_index_product_ge_2**31_interpolating',
+                         'rebin_long_axis_index_product_just_below_2**31', 'rebin_long_axis_shrunk', 'rebin_long_axis_in_2d',
                          'rebin_nonfinite_interpolating_calls', 'rebin_infinite_last_pixel_of_enlarged_axis',
                          'rebin_nonfinite_first_pixel_of_enlarged_axis', 'rebin_nonfinite_interior_pixel_of_enlarged_axis',
                          'rebin_nonfinite_input_on_shrunk_axis', 'rebin_outputs_fixed_to_a_nonfinite_value',
@@ -356,17 +373,33 @@ class C14(Check):
             'rebin_bigfactor': 900 if q else 199 * 2 * 12,
             'rebin_reject': 1600 if q else 16000,
             'stale_sequence': 1800 if q else 24000,
+            'long_arrays': 13 if q else 160,
         }
 
     # ------------------------------------------------------------------ generators
     def gen(self, cls, rng, i):
         if cls == 'stale_sequence':
             return self._gen_sequence(rng, i)
+        if cls == 'long_arrays':
+            return self._gen_long(rng, i)
         case = self._gen_base(cls, rng, i)
         if (cls in ('rebin_fragile', 'rebin_grid1d', 'rebin_bigfactor') and case['dtype'][0] == 'f'
                 and not case['sample']):
             case['x'] = _inject_nd(rng, case['x'], case['shape'], case['d'], 0.2)
         self._add_layout(case, rng)
+        return case
+
+    def _median_opts(self, case, rng, axes):
+        """a width together with axis= and/or even=: the property says 'with a width the running median', so
+        the other options must not change the result"""
+        if rng.random() < 0.35:
+            opts = {}
+            m = rng.choice(['axis', 'even', 'both', 'axis', 'both'])
+            if m in ('axis', 'both'):
+                opts['axis'] = rng.choice(axes)
+            if m in ('even', 'both'):
+                opts['even'] = rng.random() < 0.5
+            case['opts'] = opts
         return case
 
     def _add_layout(self, case, rng):
@@ -405,7 +438,8 @@ class C14(Check):
             dt = rng.choice(['f8', 'f8', 'f4'])
             return {'fn': 'smooth', 'dtype': dt, 'x': _inject(rng, _floats(rng, n, dt), ['+inf', '-inf', 'nan'], 0.15),
                     'w': w, 'trunc': cls == 'smooth_trunc', 'kwform': rng.random() < 0.5,
-                    'flagform': rng.choice(['bool', 'bool', 'int', 'npbool']), 'wnp': rng.random() < 0.2}
+                    'flagform': rng.choice(['bool', 'bool', 'int', 'npbool']),
+                    'wkind': rng.choice(['int', 'int', 'int', 'int64', 'int32', 'intp', 'float', 'float64'])}
         if cls == 'median_whole':
             dt = rng.choice(['f8', 'f8', 'f4'])
             if rng.random() < 0.7:
@@ -416,9 +450,13 @@ class C14(Check):
                     shape = [rng.randint(200, 1000)]
             else:
                 shape = [rng.randint(1, 8), rng.randint(1, 8)]
-            return {'fn': 'median', 'dtype': dt, 'shape': shape,
-                    'x': _inject(rng, _floats(rng, _prod(shape), dt), ['+inf', '-inf'], 0.15),
-                    'even': rng.random() < 0.5, 'flagform': rng.choice(['bool', 'bool', 'int', 'npbool'])}
+            c = {'fn': 'median', 'dtype': dt, 'shape': shape,
+                 'x': _inject(rng, _floats(rng, _prod(shape), dt), ['+inf', '-inf'], 0.15),
+                 'even': rng.random() < 0.5, 'flagform': rng.choice(['bool', 'bool', 'int', 'npbool'])}
+            if rng.random() < (0.35 if len(shape) == 2 else 0.08):
+                c['axis'] = rng.choice([0, 1, -1] if len(shape) == 2 else [0, -1])     # axis (with or without even)
+                c['evengiven'] = rng.random() < 0.6
+            return c
         if cls == 'median_run1d':
             dt = rng.choice(['f8', 'f8', 'f4'])
             n = rng.randint(1, 9) if rng.random() < 0.35 else rng.randint(1, N)
@@ -428,7 +466,8 @@ class C14(Check):
                 n = rng.randint(200, 500)
             ws = list(range(1, n + 1, 2))
             w = ws[-1] if rng.random() < 0.15 else rng.choice(ws)
-            return {'fn': 'run1d', 'dtype': dt, 'x': _inject(rng, _floats(rng, n, dt), ['+inf', '-inf'], 0.15), 'w': w}
+            c = {'fn': 'run1d', 'dtype': dt, 'x': _inject(rng, _floats(rng, n, dt), ['+inf', '-inf'], 0.15), 'w': w}
+            return self._median_opts(c, rng, [0, -1, None])
         if cls == 'median_run2d':
             dt = rng.choice(['f8', 'f8', 'f4'])
             nr, nc = rng.randint(1, N2), rng.randint(1, N2)
@@ -436,8 +475,9 @@ class C14(Check):
                 nr, nc = max(nr, 3), max(nc, 3)
             ws = list(range(1, min(nr, nc) + 1, 2))
             w = ws[-1] if rng.random() < 0.2 else rng.choice(ws)
-            return {'fn': 'run2d', 'dtype': dt, 'shape': [nr, nc],
-                    'x': _inject(rng, _floats(rng, nr * nc, dt), ['+inf', '-inf'], 0.15), 'w': w}
+            c = {'fn': 'run2d', 'dtype': dt, 'shape': [nr, nc],
+                 'x': _inject(rng, _floats(rng, nr * nc, dt), ['+inf', '-inf'], 0.15), 'w': w}
+            return self._median_opts(c, rng, [0, 1, -1, None])
         if cls in ('uniq_sorted', 'uniq_index'):
             return self._gen_uniq(cls, rng, i)
         if cls == 'rebin_float':
@@ -825,7 +865,12 @@ class C14(Check):
         x, base, snap = self._present(out, 'smooth', x0, lay)
         w = case['w']
 
-        wa = np.int64(w) if case.get('wnp') else w
+        wk = case.get('wkind', 'int64' if case.get('wnp') else 'int')
+        wa = {'int': int, 'int64': np.int64, 'int32': np.int32, 'intp': np.intp, 'float': float,
+              'float64': np.float64}[wk](w)
+        if wk != 'int':
+            out.count('smooth_width_given_as_' + ('float' if wk.startswith('float') else 'numpy_int') +
+                      ('_with_edge_truncate' if case['trunc'] else ''))
         ff = case.get('flagform', 'bool')
         if ff != 'bool':
             out.count('flag_given_as_int_or_numpy_bool')
@@ -894,6 +939,8 @@ class C14(Check):
         out.info['n'], out.info['width'], out.info['layout'] = len(val), W, lay
 
     def _run_median(self, case, out):
+        if 'axis' in case:
+            return self._run_median_axis(case, out)
         dt = case['dtype']
         x0 = np.array(case['x'], dtype=dt).reshape(case['shape'])
         lay = case.get('layout', 'contig')
@@ -971,12 +1018,64 @@ class C14(Check):
         out.count('run_edge_points', int((~m).sum()))
         return int(m.sum())
 
+    def _count_opts(self, out, kw):
+        if 'axis' in kw and 'even' in kw:
+            out.count('median_width_with_axis_and_even')
+        elif 'axis' in kw:
+            out.count('median_width_with_axis')
+        elif 'even' in kw:
+            out.count('median_width_with_even')
+        if kw.get('axis', 'x') is None:
+            out.count('median_width_with_axis_None')
+
+    def _run_median_axis(self, case, out):
+        """median(x, axis=a[, even=e]) without a width: per lane the IDL median.  Claimed: odd lane length -> the
+        middle element; even length with even=True -> mean of the two middle values.  Even length without `even`
+        carries no claim (the docstring documents numpy's mean-of-middle there, IDL returns the upper element)."""
+        dt = case['dtype']
+        x0 = np.array(case['x'], dtype=dt).reshape(case['shape'])
+        lay = case.get('layout', 'contig')
+        x, base, snap = self._present(out, 'medianaxis', x0, lay)
+        ax = case['axis']
+        kw = {'axis': ax}
+        if case.get('evengiven'):
+            kw['even'] = _flag(case['even'], case.get('flagform', 'bool'))
+        r = self.P.median(x, **kw)
+        self._unmodified(out, 'median', lay, base, snap)
+        lanes = np.moveaxis(x0, ax, -1)
+        want_shape = lanes.shape[:-1]
+        if not out.expect(np.shape(r) == want_shape, 'median-axis-shape',
+                          'median over axis %r of shape %r: result shape %r, expected %r' % (ax, x0.shape, np.shape(r), want_shape)):
+            return
+        n = lanes.shape[-1]
+        evenflag = bool(case['even']) and bool(case.get('evengiven'))
+        out.count('median_axis_with_even' if case.get('evengiven') else 'median_axis_alone')
+        if n % 2 == 0 and not evenflag:
+            out.count('median_axis_even_count_without_even_not_judged')
+            out.nontrivial = False
+            return
+        g = np.asarray(r, dtype=float).reshape(-1)
+        for k, lane in enumerate(lanes.reshape(-1, n)):
+            exp, how, (lo, hi) = R.median_ref([float(v) for v in lane], evenflag)
+            if exp != exp or abs(exp) == float('inf'):
+                ok = (g[k] != g[k]) if exp != exp else g[k] == exp
+            elif how == 'even-mean':
+                ok = abs(g[k] - exp) <= TOL[dt] * max(abs(lo), abs(hi))
+            else:
+                ok = g[k] == exp
+            out.expect(ok, 'median-axis', 'lane %d along axis %r (%d values, %s): got %r expected %r' % (k, ax, n, how, g[k], exp))
+        out.count('median_axis_lanes_judged', len(g))
+        out.nontrivial = n >= 2
+        out.info['axis'], out.info['shape'] = ax, case['shape']
+
     def _run_run1d(self, case, out):
         x0 = np.array(case['x'], dtype=case['dtype'])
         lay = case.get('layout', 'contig')
         x, base, snap = self._present(out, 'run1d', x0, lay)
+        kw = dict(case.get('opts', {}))
+        self._count_opts(out, kw)
         try:
-            r = self.P.median(x, case['w'])
+            r = self.P.median(x, case['w'], **kw)
         except ValueError as e:
             # scipy.signal.medfilt refuses non-native byte order outright ("dtype=>f8 is not supported by
             # medfilt"): a loud refusal by the collaborator, not a wrong value; recorded, not judged here
@@ -1001,7 +1100,7 @@ class C14(Check):
         if not x.flags.c_contiguous and case['w'] >= 3:
             out.count('run1d_noncontiguous_interior_points', n)
         if lay != 'contig':
-            self._consistent(out, 'run1d', lay, r, self.P.median(x0.copy(), case['w']))
+            self._consistent(out, 'run1d', lay, r, self.P.median(x0.copy(), case['w'], **kw))
         out.nontrivial = n > 0 and x0.size >= 2
         out.info['n'], out.info['w'], out.info['layout'] = int(x0.size), case['w'], lay
 
@@ -1009,7 +1108,9 @@ class C14(Check):
         x0 = np.array(case['x'], dtype=case['dtype']).reshape(case['shape'])
         lay = case.get('layout', 'contig')
         x, base, snap = self._present(out, 'run2d', x0, lay)
-        r = self.P.median(x, width=case['w'])
+        kw = dict(case.get('opts', {}))
+        self._count_opts(out, kw)
+        r = self.P.median(x, width=case['w'], **kw)
         self._unmodified(out, 'run2d', lay, base, snap)
         exp, inner = R.running_median_2d([[float(v) for v in row] for row in x0], case['w'])
         n = self._cmp_running(out, r, x0, exp, inner, 'run2d', case['w'])
@@ -1021,7 +1122,7 @@ class C14(Check):
         if not x.flags.c_contiguous and case['w'] >= 3:
             out.count('run2d_noncontiguous_interior_points', n)
         if lay != 'contig':
-            self._consistent(out, 'run2d', lay, r, self.P.median(x0.copy(), width=case['w']))
+            self._consistent(out, 'run2d', lay, r, self.P.median(x0.copy(), width=case['w'], **kw))
         out.nontrivial = n > 0 and x0.size >= 2
         out.info['shape'], out.info['w'], out.info['layout'] = case['shape'], case['w'], lay
 
@@ -1129,6 +1230,9 @@ class C14(Check):
                        % (lay, b, r[tuple(b)].item() if b else None, exp[tuple(b)].item() if b else None),
                        shape=case['shape'], d=list(d))
             out.count('rebin_sample_calls')
+            rel = ''.join(sorted({'E' if d[k] > x0.shape[k] else ('K' if d[k] == x0.shape[k] else 'S')
+                                  for k in range(x0.ndim)}))
+            out.count('rebin_sample_with_axes_' + rel)
             if case.get('fragile'):
                 out.count('rebin_sample_fragile_pairs')
             for k, p in enumerate(plans):
@@ -1229,6 +1333,182 @@ class C14(Check):
             self._consistent(out, 'rebin', lay, r, call(x0.copy()), allowed=allowed)
         out.nontrivial = modes.strip('K') != ''
         out.info['modes'], out.info['shape'], out.info['d'], out.info['layout'] = modes, case['shape'], list(d), lay
+
+    # ------------------------------------------------------------------ long arrays (sizes at 2**15, 2**16, 2**31/size)
+    def _gen_long(self, rng, i):
+        table = [
+            {'kind': 'rebin', 'shape': [40000], 'd': [80000], 'dtype': 'f8', 'sample': False},
+            {'kind': 'rebin', 'shape': [32769], 'd': [65538], 'dtype': 'i4', 'sample': True},
+            {'kind': 'rebin', 'shape': [2, 33000], 'd': [1, 66000], 'dtype': 'f4', 'sample': False},
+            {'kind': 'rebin', 'shape': [23171], 'd': [92684], 'dtype': 'f8', 'sample': True},
+            {'kind': 'rebin', 'shape': [92684], 'd': [23171], 'dtype': 'i4', 'sample': False},
+            {'kind': 'rebin', 'shape': [32768], 'd': [65536], 'dtype': 'i4', 'sample': False},
+            {'kind': 'smooth', 'n': 65537, 'w': 257, 'trunc': False, 'dtype': 'f8'},
+            {'kind': 'smooth', 'n': 32767, 'w': 256, 'trunc': True, 'dtype': 'f4'},
+            {'kind': 'run1d', 'n': 32769, 'w': 255, 'dtype': 'f8'},
+            {'kind': 'median', 'n': 65536, 'even': False, 'dtype': 'f8'},
+            {'kind': 'median', 'n': 65537, 'even': True, 'dtype': 'f4'},
+            {'kind': 'uniq', 'n': 65537, 'index': False, 'dtype': 'i4'},
+            {'kind': 'uniq', 'n': 65537, 'index': True, 'dtype': 'f8'},
+        ]
+        if i < len(table):
+            c = dict(table[i])
+        else:
+            kind = ['rebin', 'rebin', 'rebin', 'smooth', 'smooth', 'run1d', 'median', 'uniq'][i % 8]
+            if kind == 'rebin':
+                L = rng.choice([23171, 32768, 32769, 40000, 46341, 65536, 70000])
+                f = rng.choice([2, 3, 4]) if L < 60000 else rng.choice([2, 2, 3])
+                shrink = rng.random() < 0.3
+                shape, d = ([L * f], [L]) if shrink else ([L], [L * f])
+                if rng.random() < 0.4:                                   # one axis of a 2-D array, tiny other axis
+                    o0, o1 = rng.choice([(1, 1), (2, 2), (2, 1), (1, 2), (3, 3)])
+                    shape, d = ([o0] + shape, [o1] + d) if rng.random() < 0.5 else (shape + [o0], d + [o1])
+                c = {'kind': 'rebin', 'shape': shape, 'd': d, 'dtype': rng.choice(['f8', 'f4', 'i4']),
+                     'sample': rng.random() < 0.5}
+            elif kind == 'smooth':
+                c = {'kind': 'smooth', 'n': rng.choice([32767, 32768, 32769, 65535, 65536, 65537]),
+                     'w': rng.choice([255, 256, 257, 127, 128, 129, 2, 3]), 'trunc': rng.random() < 0.5,
+                     'dtype': rng.choice(['f8', 'f4'])}
+            elif kind == 'run1d':
+                c = {'kind': 'run1d', 'n': rng.choice([32767, 32768, 32769, 65535, 65536, 65537]),
+                     'w': rng.choice([255, 257, 127, 129, 3]), 'dtype': rng.choice(['f8', 'f4'])}
+            elif kind == 'median':
+                c = {'kind': 'median', 'n': rng.choice([32767, 32768, 32769, 65535, 65536, 65537]),
+                     'even': rng.random() < 0.5, 'dtype': rng.choice(['f8', 'f4'])}
+            else:
+                c = {'kind': 'uniq', 'n': rng.choice([32767, 32768, 32769, 65535, 65536, 65537]),
+                     'index': rng.random() < 0.5, 'dtype': rng.choice(['i4', 'i8', 'f8', 'i2'])}
+        c['fn'] = 'long'
+        c['xseed'] = rng.getrandbits(48)
+        c['layout'] = _pick_layout(rng, len(c['shape']) if 'shape' in c else 1)
+        return c
+
+    def _long_data(self, case, n):
+        g = np.random.default_rng(case['xseed'])
+        dt = case['dtype']
+        if case['kind'] == 'uniq':
+            v = np.sort(g.integers(-n // 6, n // 6, size=n))
+            return v.astype(dt) if dt[0] == 'i' else (v * 0.25).astype(dt)
+        if dt[0] == 'i':
+            return g.integers(-2**31, 2**31 - 1, size=n, endpoint=True).astype(dt)
+        return (g.normal(size=n) * 50.0).astype(dt)
+
+    def _run_long(self, case, out):
+        kind = case['kind']
+        lay = case.get('layout', 'contig')
+        dt = case['dtype']
+        out.count('long_' + kind + '_cases')
+        out.nontrivial = True
+        out.info = {'kind': kind, 'layout': lay}
+        if kind == 'rebin':
+            shape, d = case['shape'], tuple(int(v) for v in case['d'])
+            x0 = self._long_data(case, _prod(shape)).reshape(shape)
+            x, base, snap = self._present(out, 'rebinlong', x0, lay)
+            r = self.P.rebin(x, d, sample=True) if case['sample'] else self.P.rebin(x, d)
+            self._unmodified(out, 'rebin', lay, base, snap)
+            if not out.expect(isinstance(r, np.ndarray) and tuple(r.shape) == d, 'rebin-shape',
+                              'result shape %r is not the requested %r' % (getattr(r, 'shape', None), d)):
+                return
+            out.expect(_same_kind(r.dtype, x.dtype), 'rebin-dtype', 'result dtype %s, input dtype %s' % (r.dtype, x.dtype))
+            for n0, n1 in zip(shape, d):
+                if n1 > n0 and (n1 - 1) * n0 >= 2**31:
+                    out.count('rebin_long_axis_index_product_ge_2**31' + ('_sample' if case['sample'] else '_interpolating'))
+                if n1 > n0 and n0 >= 2**15 and (n1 - 1) * n0 < 2**31:
+                    out.count('rebin_long_axis_index_product_just_below_2**31')
+                if n1 < n0 and n0 >= 40000:
+                    out.count('rebin_long_axis_shrunk')
+            if len(shape) > 1:
+                out.count('rebin_long_axis_in_2d')
+            if case['sample'] or dt[0] == 'f':
+                ref = R.rebin_float_ref_fast(x0, d, case['sample']) if dt[0] == 'f' else None
+            if case['sample']:
+                exp = x0
+                for k in range(x0.ndim):
+                    exp = np.take(exp, R._axis_tables(x0.shape[k], d[k], True)[1], axis=k)
+                b = _first_bad(np.asarray(r) != exp)
+                out.expect(b is None, 'rebin-sample',
+                           'sample=True must pick input pixel floor(i*d0/d) (long axis, layout %s): first wrong element %s got %r expected %r'
+                           % (lay, b, r[tuple(b)].item() if b else None, exp[tuple(b)].item() if b else None),
+                           shape=shape, d=list(d))
+            elif dt[0] == 'f':
+                mag = float(np.max(np.abs(x0)))
+                err = np.abs(np.asarray(r).astype(np.longdouble) - ref)
+                self._err('rebin_' + dt, float(err.max()) / mag)
+                b = _first_bad(~(err <= TOL[dt] * mag))
+                out.expect(b is None, 'rebin-float',
+                           'long axis (layout %s): first element off by more than %g*max|x|: %s got %r expected %r' % (
+                               lay, TOL[dt], b, r[tuple(b)].item() if b else None, float(ref[tuple(b)]) if b else None),
+                           shape=shape, d=list(d))
+            else:
+                lo, hi = R.rebin_int_bounds_fast(x0, d)
+                ri = np.asarray(r).astype(np.int64)
+                b = _first_bad((ri < lo) | (ri > hi))
+                out.expect(b is None, 'rebin-integer',
+                           'long axis (layout %s): first element farther than 1 from the exact value: %s got %r allowed [%r, %r]' % (
+                               lay, b, r[tuple(b)].item() if b else None, int(lo[tuple(b)]) if b else None,
+                               int(hi[tuple(b)]) if b else None), shape=shape, d=list(d))
+            return
+        n = case['n']
+        x0 = self._long_data(case, n)
+        if kind == 'uniq' and case['index']:
+            g = np.random.default_rng(case['xseed'] + 1)
+            perm = g.permutation(n)
+            xs = x0.copy()
+            x0 = np.empty_like(xs)
+            x0[perm] = xs                                   # x0[perm[k]] = sorted value k
+            idx = perm.astype('i8')                          # hence x0[idx] is sorted
+        x, base, snap = self._present(out, kind + 'long', x0, lay)
+        if kind == 'smooth':
+            w = case['w']
+            r = self.P.smooth(x, w, True) if case['trunc'] else self.P.smooth(x, w)
+            self._unmodified(out, 'smooth', lay, base, snap)
+            if not out.expect(isinstance(r, np.ndarray) and r.shape == x0.shape, 'smooth-shape', 'shape differs'):
+                return
+            val, touched = R.smooth_ref_fast(x0, w, case['trunc'])
+            scale, _ = R.smooth_ref_fast(np.abs(x0), w, case['trunc'])
+            g = np.asarray(r).astype(np.longdouble)
+            b = _first_bad(~touched & (g != val))
+            out.expect(b is None, 'smooth-edge-untouched', 'long array n=%d width %d: point %s must be left untouched' % (n, w, b))
+            err = np.abs(g - val)
+            self._err('smooth_' + dt, float((err[touched] / scale[touched]).max()) if touched.any() else 0.0)
+            b = _first_bad(touched & ~(err <= TOL[dt] * scale))
+            out.expect(b is None, 'smooth-interior' if not case['trunc'] else 'smooth-edge-truncate',
+                       'long array n=%d width %d (layout %s): point %s got %r, window mean %r' % (
+                           n, w, lay, b, float(g[tuple(b)]) if b else None, float(val[tuple(b)]) if b else None))
+            out.count('long_smooth_points', int(touched.sum()))
+        elif kind == 'run1d':
+            w = case['w']
+            r = self.P.median(x, w)
+            self._unmodified(out, 'run1d', lay, base, snap)
+            exp, inner = R.running_median_1d_fast(x0, w)
+            m = self._cmp_running(out, r, x0, exp, inner, 'run1d', w)
+            out.count('long_run1d_interior_points', m)
+        elif kind == 'median':
+            r = self.P.median(x, even=True) if case['even'] else self.P.median(x)
+            self._unmodified(out, 'median', lay, base, snap)
+            exp, how, (lo, hi) = R.median_ref([float(v) for v in x0], case['even'])
+            g = float(r)
+            if how == 'even-mean':
+                out.expect(abs(g - exp) <= TOL[dt] * max(abs(lo), abs(hi)), 'median-even-mean',
+                           'long array n=%d: got %r, mean of middle values %r' % (n, g, exp))
+            else:
+                out.expect(g == exp, 'median-' + how, 'long array n=%d (%s): got %r expected %r' % (n, how, g, exp))
+        else:
+            xl = [v.item() for v in x0]
+            if case['index']:
+                iv, ibase, isnap = self._present(out, 'uniqindexlong', idx, case.get('layout', 'contig'))
+                r = self.P.uniq(x, iv)
+                self._unmodified(out, 'uniq', lay, ibase, isnap, 'index')
+                exp = R.uniq_ref(xl, [int(v) for v in idx])
+            else:
+                r = self.P.uniq(x)
+                exp = R.uniq_ref(xl)
+            self._unmodified(out, 'uniq', lay, base, snap)
+            got = [int(v) for v in np.asarray(r).ravel()]
+            out.expect(got == exp, 'uniq-index' if case['index'] else 'uniq-sorted',
+                       'long array n=%d: %d run ends returned, %d expected; first difference at position %s' % (
+                           n, len(got), len(exp), next((k for k, (a, b) in enumerate(zip(got, exp)) if a != b), min(len(got), len(exp)))))
+            out.count('long_uniq_runs', len(exp))
 
     def _run_rebin_reject(self, case, out):
         dt = case['dtype']
